@@ -71,7 +71,8 @@ Lemma recover_loaded : forall sc tl im h,
   stores_agree (recover sc tl im) = true /\ r_hh (recover sc tl im) = h /\ r_start (recover sc tl im) = S h
   /\ r_fellback (recover sc tl im) = false.
 Proof.
-  intros sc tl im h Hc Hh Hs Hm. unfold recover. rewrite Hc, Hh. cbn [andb]. rewrite (rewind_hit _ _ Hs), Hm.
+  intros sc tl im h Hc Hh Hs Hm. unfold recover. rewrite Hc, Hh. cbn [andb].
+  unfold recover_view, heights_of. rewrite Hh, (rewind_hit _ _ Hs), Hm. cbn [fst snd].
   match goal with |- context [let '(s, p) := ?X in _] => destruct X as [s p] end.
   cbn. rewrite Nat.eqb_refl. repeat split; reflexivity.
 Qed.
@@ -81,7 +82,8 @@ Lemma recover_fallback : forall sc tl im h,
   stores_agree (recover sc tl im) = false /\ r_hh (recover sc tl im) = S h /\ r_start (recover sc tl im) = 1
   /\ r_fellback (recover sc tl im) = true.
 Proof.
-  intros sc tl im h Hc Hh Hs Hm. unfold recover. rewrite Hc, Hh. cbn [andb]. rewrite (rewind_hit _ _ Hs), Hm.
+  intros sc tl im h Hc Hh Hs Hm. unfold recover. rewrite Hc, Hh. cbn [andb].
+  unfold recover_view, heights_of. rewrite Hh, (rewind_hit _ _ Hs), Hm. cbn [fst snd].
   match goal with |- context [let '(s, p) := ?X in _] => destruct X as [s p] end.
   cbn. repeat split; reflexivity.
 Qed.
@@ -91,7 +93,8 @@ Lemma recover_rewound : forall sc tl im h,
   (forall x, memb x (i_tries im) = true -> x = 0) -> has_state im 0 = true -> memb 0 (i_cstates im) = true ->
   stores_agree (recover sc tl im) = true /\ r_hh (recover sc tl im) = 0 /\ r_start (recover sc tl im) = 1.
 Proof.
-  intros sc tl im h Hc Hh Ht H0 Hm. unfold recover. rewrite Hc, Hh. cbn [andb]. rewrite (rewind_zero _ _ Ht H0), Hm.
+  intros sc tl im h Hc Hh Ht H0 Hm. unfold recover. rewrite Hc, Hh. cbn [andb].
+  unfold recover_view, heights_of. rewrite Hh, (rewind_zero _ _ Ht H0), Hm. cbn [fst snd].
   match goal with |- context [let '(s, p) := ?X in _] => destruct X as [s p] end.
   cbn. repeat split; reflexivity.
 Qed.
@@ -208,7 +211,7 @@ Qed.
 Lemma second_crash_headptr : forall sc tl im h, i_head im = Some h ->
   recover sc tl (apply_db WHeadPtr im) = recover sc tl im.
 Proof.
-  intros sc tl im h Hh. unfold recover.
+  intros sc tl im h Hh. unfold recover, recover_view, heights_of.
   cbn [apply_db i_head i_canon0 i_cstates i_wal i_blocks i_txblocks i_badapps i_apps i_tries]. rewrite Hh.
   erewrite (rewind_ext _ im) by (intro y; reflexivity). rewrite rewind_idem. reflexivity.
 Qed.
